@@ -25,7 +25,7 @@ var clientKinds = []string{
 	"c:retry-replayed-seq0", "c:retry-sni-changed", "c:retry-alpn-changed", "c:retry-inner-without-ech", "c:retry-outer-sni-not-public-name", "c:retry-outer-not-tls13", "c:retry-ok-fragmented", "c:retry-trailing-bytes",
 	"c:ccs", "c:handshake-other", "c:appdata", "c:alert",
 }
-var backendKinds = []string{"b:server-hello", "b:hrr", "b:ccs", "b:appdata", "b:alert"}
+var backendKinds = []string{"b:server-hello", "b:hrr", "b:ccs", "b:appdata", "b:alert", "b:hrr-fragmented", "b:server-hello-fragmented", "b:server-hello-no-extensions"}
 
 func helloLike(k string) bool { return strings.HasPrefix(k, "c:retry") }
 
@@ -84,13 +84,34 @@ func (m *model) backend(k string) {
 	if !m.writeInterp {
 		return
 	}
+	// The backend's first handshake message - a ServerHello or a HelloRetryRequest, in one record or several -
+	// is its answer; nothing it sends afterwards is interpreted.
 	switch k {
-	case "b:appdata":
+	case "b:appdata", "b:server-hello", "b:server-hello-fragmented", "b:server-hello-no-extensions":
 		m.writeInterp = false
-	case "b:hrr":
+	case "b:hrr", "b:hrr-fragmented":
 		m.hrr++
 		m.writeInterp = false
 	}
+}
+
+// refragment cuts the handshake message of a one-record flight into 2..4 handshake records (RFC 8446 section 5.1),
+// the first of 1..40 bytes.
+func refragment(rng *mrand.Rand, rec []byte) []byte {
+	msg := rec[5:]
+	var out []byte
+	first := 1 + rng.IntN(min(40, len(msg)-1))
+	cuts := []int{first}
+	for k := rng.IntN(3); k > 0 && cuts[len(cuts)-1] < len(msg)-1; k-- {
+		last := cuts[len(cuts)-1]
+		cuts = append(cuts, last+1+rng.IntN(len(msg)-last-1))
+	}
+	prev := 0
+	for _, c := range append(cuts, len(msg)) {
+		out = append(out, tlswire.Record(22, 0x0303, msg[prev:c])...)
+		prev = c
+	}
+	return out
 }
 
 // fixture holds one accepted first hello and what is needed to build retries.
@@ -117,6 +138,16 @@ func (fx *fixture) build(rng *mrand.Rand, k string) (rec []byte, inner *tlswire.
 		return tlswire.ServerHelloRecord(hellogen.Bytes(rng, 32), fx.first.Outer.SessionID), nil
 	case "b:hrr":
 		return tlswire.HRRRecord(fx.first.Outer.SessionID, 0x0017), nil
+	case "b:hrr-fragmented":
+		return refragment(rng, tlswire.HRRRecord(fx.first.Outer.SessionID, 0x0017)), nil
+	case "b:server-hello-fragmented":
+		return refragment(rng, tlswire.ServerHelloRecord(hellogen.Bytes(rng, 32), fx.first.Outer.SessionID)), nil
+	case "b:server-hello-no-extensions":
+		// what a TLS 1.2 backend may answer: the message ends after compression_method
+		body := append([]byte{0x03, 0x03}, hellogen.Bytes(rng, 32)...)
+		body = append(append(body, byte(len(fx.first.Outer.SessionID))), fx.first.Outer.SessionID...)
+		body = append(body, 0xc0, 0x2f, 0x00)
+		return tlswire.Record(22, 0x0303, append([]byte{2, 0, 0, byte(len(body))}, body...)), nil
 	case "b:ccs":
 		return tlswire.Record(20, 0x0303, []byte{1}), nil
 	case "b:appdata":
@@ -360,7 +391,7 @@ func TestCheck(t *testing.T) {
 		"Oracle: a reference state machine written from the statement gives, per client record, forwarded-verbatim / replaced-by-reconstructed-inner / abort(class+alert); backend records must always be forwarded unchanged. " +
 		"distinct = distinct histories executed")
 	r.Assume("second hellos are sealed by the independent HPKE sender at an explicit sequence number; the expected inner hello is the generator's own",
-		"backend records are well-formed; only one HelloRetryRequest arms a retry; an HRR after a ServerHello still counts as the backend answering with an HRR")
+		"backend records are well-formed; the backend's first handshake message (ServerHello or HelloRetryRequest, whole, split over several records, or without an extensions block) is its answer: only a HelloRetryRequest there arms the one retry")
 
 	ca, err := tlspeer.NewCA()
 	if err != nil {
